@@ -47,9 +47,10 @@ META = dict(
          "pickle of nested results (memoised graph copy through __getnewargs__/__getstate__/__setstate__): "
          "copyModule_deep_fresh (every object reachable from the copy by any route, names included, is new with new "
          "list cell, dict cell and occurrence lists; nothing of the original heap is written) and "
-         "copyModule_deep_frame (own mutations on either side never change the other side's view). PARTIAL: that the "
-         "copy.deepcopy/pickle copy SHOWS the original's views at every depth is not proved on the heap model (one "
-         "object: pickle_roundtrip; nested: copy-preserves oracle); deepcopy()'s name view of nested groups is proved "
+         "copyModule_deep_frame (own mutations on either side never change the other side's view), "
+         "copyModule_deep_as_list (as_list() of the copy = as_list() of the original to every depth). PARTIAL: that the "
+         "copy.deepcopy/pickle copy shows the original's NAME view (as_dict/dump) at every depth is not proved on the heap "
+         "model (one object: pickle_roundtrip; nested: copy-preserves oracle); deepcopy()'s name view of nested groups is proved "
          "only in the form `same occurrence lists` (deepcopy_names_shared); container tokens (list/tuple/dict holding "
          "groups, results.py:598-605) are not in the heap model: oracle only. "
          "from_dict: tree model of from_dict/as_dict (PPModel/Mod/PRFromDict.lean), "
@@ -109,6 +110,8 @@ THEOREMS = [
     # copy.deepcopy / pickle of nested results (memoised model deepObjN / copyModuleDeep)
     "PP.PRHeap.copyModule_deep_fresh",
     "PP.PRHeap.copyModule_deep_frame",
+    "PP.PRHeap.copyModule_deep_as_list",
+    "PP.PRHeap.deepObjN_rel",
     "PP.PRHeap.deepObjN_spec",
 ]
 
